@@ -910,6 +910,9 @@ def run(ctx):
         if sr[0]:
             ctx.ob('C12', 'R-LOOP', 'recursion|' + stable_id(base), True, 'structural recursion: ' + sr[1], loc(P.fns[fid].span))
             continue
+        if 'work doubles' in sr[1]:
+            ctx.ob('C12', 'R-LOOP', 'recursion|' + stable_id(base), False, 'recursion that repeats itself: ' + sr[1], loc(P.fns[fid].span))
+            continue
         ctx.ob('C12', 'R-LOOP', 'recursion|' + stable_id(base), base in T.RECURSION,
                ('recursion along input nesting (reviewed): ' + T.RECURSION[base]) if base in T.RECURSION else
                'recursive function without a structural or reviewed termination argument (%s)' % sr[1],
@@ -1008,6 +1011,7 @@ def structural_recursion(P, fid, cyc):
         if any(cc['path'] in cyc for cc in c.calls()):
             return False, 'recursive call inside a closure'
     n = 0
+    sites = []
     for c in f.calls():
         if c['path'] not in cyc:
             continue
@@ -1021,6 +1025,13 @@ def structural_recursion(P, fid, cyc):
         if not ok:
             return False, 'a self call passes no sub-component of its own parameter'
         n += 1
+        sites.append((c['block'], repr([strip(f.expr_of_operand(a)) for a in c['term']['args']])))
+    # the same sub-component walked twice on one path doubles the work at every level of nesting: 2^depth steps for an input
+    # of size depth (a build that does not finish in practice)
+    for i_, (b1, a1) in enumerate(sites):
+        for b2, a2 in sites[i_ + 1:]:
+            if a1 == a2 and b1 != b2 and (b2 in f.reach(b1) or b1 in f.reach(b2)):
+                return False, 'the same sub-component is passed to two self calls on one path (work doubles with every level of nesting)'
     return n > 0, '%d self call(s), each on a variant payload of the same parameter' % n
 
 
